@@ -158,6 +158,16 @@ impl Prop for C05 {
             // the history starts; thread-local or process-wide state left behind by them must not show
             let n = rng.range(1, 4);
             let mut warm = Vec::new();
+            if !deep && rng.pct(50) {
+                // near-miss documents: the history's own documents with the boundary between a parent's and a child's
+                // name shifted by one character, or the case of a name changed - anything cached on this thread under a
+                // lossy key (concatenation, case-folded name, ...) by them must not be served to the real history
+                for d in &docs {
+                    let mut v = d.clone();
+                    crate::dom::shift_names(&mut rng, &mut v.root);
+                    warm.push(Step { input: Input::Raw(v.ser()), plan: Plan::slice(), cfg: 0 });
+                }
+            }
             for _ in 0..n {
                 let (bytes, _, _) = if deep { crate::mutate::deep_hostile(&mut rng) } else { crate::mutate::hostile(&mut rng) };
                 let mut plan = if rng.pct(50) { Plan::slice() } else { Plan::draw_transparent(&mut rng, &bytes) };
